@@ -1,24 +1,23 @@
 """@gen NAME ARGS: spec text generated mechanically from /repo's current source (code-derived SHAPES, never postconditions).
 
-stage_keys FILE FN — the configurations of the optimisation stages of one replica in the CLI pipeline.  The property (C10) speaks of
-"the replicas"; what a replica is — how many stages, with which settings — is the code's business.  The generator reads every
+stage_keys FILE FN -- the configurations of the optimisation stages of one replica in the CLI pipeline.  The property (C10) speaks of
+"the replicas"; what a replica is -- how many stages, with which settings -- is the code's business.  The generator reads every
 `optimiser.clone()<setters>.build().optimise_state(ARG)` chain of FN in order and emits one spec function per stage plus
-`replica`, so that retuning a stage does not disturb the check.  Only literal settings and the replica index are understood: anything
-else (e.g. a setting that depends on the number of replicas) is outside the stated subset and makes the unit undecided."""
+`replica`, so that retuning a stage does not disturb the check.  Literal settings are understood, and for the seed any
+sum/difference/product of literals, the replica index and the replica count (a replica that depends on the count is a legitimate
+thing to express: the monotonicity lemma of C10 then fails); anything else is outside the stated subset and makes the unit undecided."""
+import os
 import re
 
 from . import rustsrc as R
 from .rustsrc import ExtractError
 
-_FLOAT = re.compile(r"^-?(\d+\.\d*|\d*\.\d+|\d+(\.\d*)?[eE][-+]?\d+)$")
+_FLOAT = re.compile(r"^-?(\d+\.\d*|\d*\.\d+)$")
 _INT = re.compile(r"^\d+$")
 
 
 def _real(a):
-    m = _FLOAT.match(a)
-    if not m:
-        return None
-    if "e" in a.lower():
+    if not _FLOAT.match(a):
         return None
     x = a if not a.endswith(".") else a + "0"
     x = ("0" + x) if x.startswith(".") else x
@@ -26,15 +25,28 @@ def _real(a):
 
 
 def _scalar_u64(a):
-    if _INT.match(a):
-        return a
-    if a == "index":
-        return "i"
-    return None
+    """literal | index | start_configs | sums, differences and products of these -> spec expression over i (replica index), n (replica count)"""
+    toks = re.findall(r"\d+|[A-Za-z_]\w*|[-+*()]", a)
+    if "".join(toks) != a or not toks:
+        return None
+    out = []
+    for t in toks:
+        if t == "index":
+            out.append("(i as int)")
+        elif t == "start_configs":
+            out.append("(n as int)")
+        elif _INT.match(t):
+            out.append(t + "int")
+        elif t in "+-*()":
+            out.append(t)
+        else:
+            return None
+    if len(toks) == 1:
+        return "i" if toks[0] == "index" else ("n" if toks[0] == "start_configs" else toks[0])
+    return "((%s) as u64)" % " ".join(out)
 
 
 def stage_keys(repo, args):
-    import os
     file, fn = args.split()
     text = open(os.path.join(repo, file)).read()
     s, e = R.find_fn(text, fn, None)
@@ -53,9 +65,6 @@ def stage_keys(repo, args):
         upd = {}
         for name, a in re.findall(r"\.\s*(\w+)\(\s*([^()]*(?:\([^()]*\))?[^()]*?)\s*\)", setters):
             a = "".join(a.split())
-            opt = None
-            if a == "None":
-                opt = "None"
             m = re.match(r"^Some\((.*)\)$", a)
             if name in ("kt_start", "max_step_size"):
                 r = _real(a)
@@ -70,37 +79,37 @@ def stage_keys(repo, args):
                     raise ExtractError("gen stage_keys: kt_finish(%s) is not a literal" % a)
                 upd[name] = "Some(%s)" % r
             elif name in ("kt_ratio", "convergence"):
-                if opt:
+                if a == "None":
                     upd[name] = "None"
                 elif m and _real(m.group(1)):
                     upd[name] = "Some(%s)" % _real(m.group(1))
                 else:
                     raise ExtractError("gen stage_keys: %s(%s) is not None or Some(literal)" % (name, a))
             elif name in ("steps", "inner_steps"):
-                v = a if _INT.match(a) else None
-                if v is None:
+                if not _INT.match(a):
                     raise ExtractError("gen stage_keys: %s(%s) is not an integer literal" % (name, a))
-                upd[name] = v
+                upd[name] = a
             elif name == "seed":
                 v = _scalar_u64(a)
                 if v is None:
-                    raise ExtractError("gen stage_keys: seed(%s) is neither a literal nor the replica index" % a)
+                    raise ExtractError("gen stage_keys: seed(%s) is not an expression over literals, the replica index and the replica count" % a)
                 upd[name] = "Some(%s)" % v
             else:
                 raise ExtractError("gen stage_keys: unknown setter %s" % name)
         fields = ", ".join("%s: %s" % kv for kv in upd.items())
-        out.append("pub open spec fn k%d(o: BuildOptimiser, i: u64) -> CfgKey { CfgKey { %s%s..key(o) } }" % (n, fields, ", " if fields else ""))
+        out.append("pub open spec fn k%d(o: BuildOptimiser, i: u64, n: u64) -> CfgKey { CfgKey { %s%s..key(o) } }" % (n, fields, ", " if fields else ""))
     expr = "s"
     for n in range(1, len(stages) + 1):
-        expr = "opt_r(k%d(o, i), %s)" % (n, expr)
-    out.append("/// replica i: the stages applied in order to a copy of the starting state (generated from %s::%s, %d stages)" % (file, fn, len(stages)))
-    out.append("pub open spec fn replica<S>(o: BuildOptimiser, s: S, i: u64) -> S { %s }" % expr)
+        expr = "opt_r(k%d(o, i, n), %s)" % (n, expr)
+    out.append("/// replica i of a run of n: the stages applied in order to a copy of the starting state (generated from %s::%s, %d stages);" % (file, fn, len(stages)))
+    out.append("/// a replica that depends on n is expressible, and then the monotonicity lemma of C10 fails")
+    out.append("pub open spec fn replica<S>(o: BuildOptimiser, s: S, i: u64, n: u64) -> S { %s }" % expr)
     # the frame of optimise_state (ax_opt_label), once per stage
     calls, cur = [], "s"
     for n in range(1, len(stages) + 1):
-        calls.append("ax_opt_label(k%d(o, i), %s);" % (n, cur))
-        cur = "opt_r(k%d(o, i), %s)" % (n, cur)
-    out.append("pub proof fn lemma_replica_label<S: State>(o: BuildOptimiser, s: S, i: u64) ensures replica(o, s, i).label() == s.label() { %s }" % " ".join(calls))
+        calls.append("ax_opt_label(k%d(o, i, n), %s);" % (n, cur))
+        cur = "opt_r(k%d(o, i, n), %s)" % (n, cur)
+    out.append("pub proof fn lemma_replica_label<S: State>(o: BuildOptimiser, s: S, i: u64, n: u64) ensures replica(o, s, i, n).label() == s.label() { %s }" % " ".join(calls))
     return "\n".join(out)
 
 
